@@ -623,6 +623,12 @@ def rule_exact_then_variadic(em, rep, rid):
                     in_body = any(x is v for s in p.body for x in ast.walk(s))
                     if in_body and (names & tnames) and _tests_absence(p.test):
                         ok, why = True, 'guarded by the failure of the exact lookup'
+                    # ... or by "is <the marker the exact get returns when the key is absent>"
+                    t_ = p.test
+                    if in_body and isinstance(t_, ast.Compare) and len(t_.ops) == 1 and isinstance(t_.ops[0], ast.Is) and \
+                            is_name(t_.left) and t_.left.id in names and is_name(t_.comparators[0]) and any(
+                                isinstance(e, ast.Call) and len(e.args) > 1 and is_name(e.args[1], t_.comparators[0].id) for e in exact):
+                        ok, why = True, 'guarded by the exact lookup having returned its "absent" marker'
                 if isinstance(p, ast.BoolOp) and isinstance(p.op, ast.Or):
                     idx = [i for i, x in enumerate(p.values) if any(y is v for y in ast.walk(x))]
                     idx_e = [i for i, x in enumerate(p.values) if any(y is e for e in exact for y in ast.walk(x))]
